@@ -2,7 +2,7 @@
    the model's forests, and the refinement of the model's augment loop (Model/Schema.v) to a maximal run. *)
 From Coq Require Import List NArith Bool Permutation Arith Lia.
 From GY Require Import Model.Schema Spec.C07.
-From GY Require Spec.C04.
+From GY Require Spec.C04 Proofs.SchemaLemmas.
 Import ListNotations.
 Local Open Scope N_scope.
 
@@ -1764,10 +1764,10 @@ Lemma rounds_S : forall f round F err P mods,
   rounds SC (S f) round F err P mods =
   let '(Fa, erra, Pa, modsa, applied) := augment_loop SC (S (n_aug SC)) F err P mods O in
   match modsa with
-  | [] => (fix_all SC Fa, erra, Pa, modsa)
+  | [] => (fix_all Fa, erra, Pa, modsa)
   | _ => match round, applied with
-         | S _, O => (fix_all SC Fa, erra, Pa, modsa)
-         | _, _ => rounds SC f (S round) (fix_all SC Fa) erra Pa modsa
+         | S _, O => (fix_all Fa, erra, Pa, modsa)
+         | _, _ => rounds SC f (S round) (fix_all Fa) erra Pa modsa
          end
   end.
 Proof. reflexivity. Qed.
@@ -1792,7 +1792,7 @@ Proof.
     destruct modsa as [| m0 ms] eqn:Em.
     + inversion H; subst. exact Hdone.
     + rewrite <- Em in *. clear Em.
-      assert (Hrec : rounds SC f (S round) (fix_all SC Fa) erra Pa modsa = (F2, err2, P2, mods2) ->
+      assert (Hrec : rounds SC f (S round) (fix_all Fa) erra Pa modsa = (F2, err2, P2, mods2) ->
                      (err = true -> err2 = true) /\ map fst P2 = map fst P /\ covers P2 mods2 /\
                      (length (all_pending P2) <= n_aug SC)%nat).
       { intros Hr. destruct Hdone as [D1 [D2 [D3 D4]]].
@@ -2122,7 +2122,7 @@ Qed.
 
 (* FixChoice is a function of the view: the premise under which the rounds are order-independent *)
 Definition fix_all_compat : Prop :=
-  forall F F', forest_eqv F F' -> forest_eqv (fix_all SC F) (fix_all SC F').
+  forall F F', forest_eqv F F' -> forest_eqv (fix_all F) (fix_all F').
 
 Lemma rounds_err : forall fuel round F P mods F2 err2 P2 mods2,
   rounds SC fuel round F true P mods = (F2, err2, P2, mods2) ->
@@ -2161,7 +2161,7 @@ Proof.
     { destruct ea; [| reflexivity]. exfalso.
       destruct ma as [| m0 ms] eqn:Em; [inversion H1 |].
       rewrite <- Em in *. clear Em.
-      assert (Hr : forall r, rounds SC f r (fix_all SC Fa) true Pa ma = (F2, false, P2, m2) -> False).
+      assert (Hr : forall r, rounds SC f r (fix_all Fa) true Pa ma = (F2, false, P2, m2) -> False).
       { intros r Hr. pose proof (rounds_err _ _ _ _ _ _ _ _ _ Hr Hnda C1) as E. discriminate E. lia. }
       destruct round as [| r]; [exact (Hr _ H1) |].
       destruct na; [inversion H1 | exact (Hr _ H1)]. }
@@ -2170,13 +2170,13 @@ Proof.
                 (le_n_S _ _ Hlen) (le_n_S _ _ Hlen') L1 L2)
       as [Hea' [Hfa [Hpa [Hn Hm]]]].
     subst ea'. rewrite !Nat.sub_0_r in Hn. subst na'.
-    assert (Hfb : forest_eqv (fix_all SC Fa) (fix_all SC Fa')) by (apply Hfix; exact Hfa).
-    assert (Hterm : (fix_all SC Fa, false, Pa, ma) = (F2, false, P2, m2) ->
-                    (fix_all SC Fa', false, Pa', ma') = (F2', e2', P2', m2') ->
+    assert (Hfb : forest_eqv (fix_all Fa) (fix_all Fa')) by (apply Hfix; exact Hfa).
+    assert (Hterm : (fix_all Fa, false, Pa, ma) = (F2, false, P2, m2) ->
+                    (fix_all Fa', false, Pa', ma') = (F2', e2', P2', m2') ->
                     e2' = false /\ forest_eqv F2 F2' /\ Permutation (all_pending P2) (all_pending P2')).
     { intros X1 X2. inversion X1; subst. inversion X2; subst. auto. }
-    assert (Hrec : forall r, rounds SC f r (fix_all SC Fa) false Pa ma = (F2, false, P2, m2) ->
-                             rounds SC f r (fix_all SC Fa') false Pa' ma' = (F2', e2', P2', m2') ->
+    assert (Hrec : forall r, rounds SC f r (fix_all Fa) false Pa ma = (F2, false, P2, m2) ->
+                             rounds SC f r (fix_all Fa') false Pa' ma' = (F2', e2', P2', m2') ->
                     e2' = false /\ forest_eqv F2 F2' /\ Permutation (all_pending P2) (all_pending P2')).
     { intros r X1 X2. eapply (IH r); [exact Hfb | exact Hpa | exact Hnda | exact Hnda' | exact C1 | exact C2 | lia | exact X1 | exact X2]. }
     destruct ma as [| m0 ms] eqn:Em.
@@ -2235,7 +2235,7 @@ Qed.
 (* T2 at the level of Process, for schemas without deviations, under the premise that FixChoice is a
    function of the view: when the rounds applied every augment in one visiting order, every other
    visiting order gives a clean, equivalent result *)
-Theorem process_order_independent : fix_all_compat SC -> no_deviations ->
+Theorem process_order_independent : fix_all_compat -> no_deviations ->
   NoDup (map m_name SC) -> forall o1 o2, covers (pend0 SC) o1 -> covers (pend0 SC) o2 ->
   sources_ok SC ic = true ->
   forall F2 P1, augment_stage SC ic o1 = (F2, false, P1, []) ->
@@ -2949,7 +2949,7 @@ Proof.
         apply (IH _ (S m) (S m') (VH_out h e i o Hv Er)); lia.
 Qed.
 
-(* ------------------------------------------------------------------ the measured depth *)
+(* ------------------------------------------------------------------ the height *)
 Lemma fold_max_le : forall (l : list nat) b, (forall v, In v l -> (v <= b)%nat) -> (fold_right Nat.max 0%nat l <= b)%nat.
 Proof.
   induction l as [| a l IH]; intros b H; simpl; [lia |].
@@ -2962,27 +2962,6 @@ Proof.
   destruct Hv as [-> | Hv]; [lia |]. specialize (IH v Hv). lia.
 Qed.
 
-Definition depth_list (f : nat) (e : entry) : list nat :=
-  match e_dir e with Some d => map (fun kv => depth f (snd kv)) d | None => [] end ++
-  match e_rpc e with
-  | Some (i, o) => (match i with Some x => [depth f x] | None => [] end) ++
-                   (match o with Some x => [depth f x] | None => [] end)
-  | None => []
-  end.
-
-Lemma depth_S : forall f e, depth (S f) e = S (fold_right Nat.max 0%nat (depth_list f e)).
-Proof. reflexivity. Qed.
-
-Lemma depth_le : forall f e, (depth f e <= f)%nat.
-Proof.
-  induction f as [| f IH]; intros e; [simpl; lia |]. rewrite depth_S.
-  apply le_n_S. apply fold_max_le. intros v Hv. unfold depth_list in Hv.
-  apply in_app_or in Hv. destruct Hv as [Hv | Hv].
-  - destruct (e_dir e) as [d |]; [| destruct Hv]. apply in_map_iff in Hv. destruct Hv as [kv [E _]]. subst v. apply IH.
-  - destruct (e_rpc e) as [[i o] |]; [| destruct Hv]. apply in_app_or in Hv.
-    destruct Hv as [Hv | Hv]; [destruct i | destruct o]; try destruct Hv as [E | []]; try (destruct Hv; fail); subst v; apply IH.
-Qed.
-
 Lemma lookup_In_pair : forall {A} k (l : list (str * A)) v, lookup k l = Some v -> exists k', In (k', v) l.
 Proof.
   intros A k l. induction l as [| [k' v'] l IH]; simpl; intros v H; [discriminate |].
@@ -2991,70 +2970,61 @@ Proof.
   - destruct (IH v H) as [k2 Hin]. exists k2. right. exact Hin.
 Qed.
 
-(* a measurement that was not cut off bounds the height of the view *)
-Lemma depth_VH : forall f e, (depth f e < f)%nat -> VH (S (depth f e)) e.
+(* the height of a tree bounds the height of its view (the view shows an empty input/output where an rpc has none,
+   hence one more) *)
+Lemma height_VH_le : forall n e, (height e <= n)%nat -> VH (S n) e.
 Proof.
-  induction f as [| f IH]; intros e Hlt; [simpl in Hlt; lia |].
-  rewrite depth_S in *. set (M := fold_right Nat.max 0%nat (depth_list f e)) in *.
-  assert (HM : (M < f)%nat) by lia.
-  assert (Hsub : forall z, In (depth f z) (depth_list f e) -> VH (S M) z).
-  { intros z Hin. pose proof (fold_max_in _ _ Hin) as Hle. fold M in Hle.
-    apply (VH_mono (S (depth f z))); [apply IH; lia | lia]. }
+  induction n as [| n IH]; intros e Hle; [pose proof (SchemaLemmas.height_pos e); lia |].
   intros q x Hq. destruct q as [| s r]; [simpl; lia |].
   destruct s; simpl in Hq.
   - destruct (e_dir e) as [d |] eqn:Ed; [| discriminate].
-    destruct (lookup n d) as [c |] eqn:Ec; [| discriminate].
-    destruct (lookup_In_pair n d c Ec) as [k' Hin].
-    assert (Hc : VH (S M) c).
-    { apply Hsub. unfold depth_list. rewrite Ed. apply in_or_app. left.
-      apply in_map_iff. exists (k', c). split; [reflexivity | exact Hin]. }
-    specialize (Hc r x Hq). simpl. lia.
+    destruct (lookup n0 d) as [c |] eqn:Ec; [| discriminate].
+    destruct (lookup_In_pair n0 d c Ec) as [k' Hin].
+    pose proof (SchemaLemmas.height_child e d (k', c) Ed Hin) as Hc. cbn [snd] in Hc.
+    assert (Hv : VH (S n) c) by (apply IH; lia).
+    specialize (Hv r x Hq). simpl. lia.
   - destruct (e_rpc e) as [[i o] |] eqn:Er; [| discriminate].
     destruct i as [xi |]; simpl in Hq.
-    + assert (Hc : VH (S M) xi).
-      { apply Hsub. unfold depth_list. rewrite Er. apply in_or_app. right. apply in_or_app. left. left. reflexivity. }
-      specialize (Hc r x Hq). simpl. lia.
+    + pose proof (SchemaLemmas.height_input e xi o Er) as Hc.
+      assert (Hv : VH (S n) xi) by (apply IH; lia).
+      specialize (Hv r x Hq). simpl. lia.
     + destruct r as [| s' r']; [simpl; lia |]. rewrite vlocate_empty_io in Hq. discriminate.
   - destruct (e_rpc e) as [[i o] |] eqn:Er; [| discriminate].
     destruct o as [xo |]; simpl in Hq.
-    + assert (Hc : VH (S M) xo).
-      { apply Hsub. unfold depth_list. rewrite Er. apply in_or_app. right. apply in_or_app. right. left. reflexivity. }
-      specialize (Hc r x Hq). simpl. lia.
+    + pose proof (SchemaLemmas.height_output e i xo Er) as Hc.
+      assert (Hv : VH (S n) xo) by (apply IH; lia).
+      specialize (Hv r x Hq). simpl. lia.
     + destruct r as [| s' r']; [simpl; lia |]. rewrite vlocate_empty_io in Hq. discriminate.
 Qed.
+
+Lemma height_VH : forall e, VH (S (height e)) e.
+Proof. intros e. apply height_VH_le. apply Nat.le_refl. Qed.
 
 
 
 (* ------------------------------------------------------------------ fix_all *)
 Section FixAll.
-Variable SC : schema.
 
-Definition mdepth (F : forest) : nat := fold_right Nat.max 0%nat (map (fun kv => depth (entry_fuel SC) (snd kv)) F).
-Definition fix_fuel (F : forest) : nat := (2 * S (S (mdepth F)))%nat.
+Definition mheight (F : forest) : nat := fold_right Nat.max 0%nat (map (fun kv => height (snd kv)) F).
+Definition fix_fuel (F : forest) : nat := (2 * S (S (mheight F)))%nat.
 
-Lemma fix_all_eq : forall F, fix_all SC F = map (fun kv => (fst kv, fix_choice (fix_fuel F) (snd kv))) F.
+Lemma fix_all_eq : forall F, fix_all F = map (fun kv => (fst kv, fix_choice (fix_fuel F) (snd kv))) F.
 Proof. reflexivity. Qed.
 
-Lemma lookup_fix_all : forall F mn, lookup mn (fix_all SC F) = option_map (fix_choice (fix_fuel F)) (lookup mn F).
+Lemma lookup_fix_all : forall F mn, lookup mn (fix_all F) = option_map (fix_choice (fix_fuel F)) (lookup mn F).
 Proof. intros F mn. rewrite fix_all_eq. apply lookup_map_val. Qed.
 
-Lemma mdepth_le : forall F, (mdepth F <= entry_fuel SC)%nat.
+Lemma mheight_ge : forall F mn x, lookup mn F = Some x -> (height x <= mheight F)%nat.
 Proof.
-  intros F. unfold mdepth. apply fold_max_le. intros v Hv. apply in_map_iff in Hv.
-  destruct Hv as [kv [E _]]. subst v. apply depth_le.
-Qed.
-
-Lemma mdepth_ge : forall F mn x, lookup mn F = Some x -> (depth (entry_fuel SC) x <= mdepth F)%nat.
-Proof.
-  intros F mn x Hl. destruct (lookup_In_pair mn F x Hl) as [k' Hin]. unfold mdepth.
+  intros F mn x Hl. destruct (lookup_In_pair mn F x Hl) as [k' Hin]. unfold mheight.
   apply fold_max_in. apply in_map_iff. exists (k', x). split; [reflexivity | exact Hin].
 Qed.
 
-(* when the measurement is below its cut-off, the fuel exceeds twice the height of every tree's view *)
-Lemma fix_fuel_enough : forall F mn x, (mdepth F < entry_fuel SC)%nat -> lookup mn F = Some x -> VH (S (mdepth F)) x.
+(* the fuel exceeds twice the height of every tree's view *)
+Lemma fix_fuel_enough : forall F mn x, lookup mn F = Some x -> VH (S (mheight F)) x.
 Proof.
-  intros F mn x Hlt Hl. pose proof (mdepth_ge F mn x Hl) as Hge.
-  apply (VH_mono (S (depth (entry_fuel SC) x))); [apply depth_VH; lia | lia].
+  intros F mn x Hl. pose proof (mheight_ge F mn x Hl) as Hge.
+  apply (VH_mono (S (height x))); [apply height_VH | lia].
 Qed.
 
 Lemma forest_eqv_trees : forall F F' mn, forest_eqv F F' ->
@@ -3070,62 +3040,44 @@ Proof.
 Qed.
 
 (* (1) FixChoice on all trees is a function of the view *)
-Theorem fix_all_respects_eqv : fix_all_compat SC.
+Theorem fix_all_respects_eqv : fix_all_compat.
 Proof.
   intros F F' H [mn q]. unfold flat_of. cbn [fst snd]. rewrite !lookup_fix_all.
   pose proof (forest_eqv_trees F F' mn H) as Ht.
   destruct (lookup mn F) as [x |] eqn:E; destruct (lookup mn F') as [x' |] eqn:E'; try contradiction; [| reflexivity].
   cbn [option_map].
-  pose proof (mdepth_le F) as L. pose proof (mdepth_le F') as L'.
-  destruct (Nat.lt_trichotomy (mdepth F) (mdepth F')) as [Hlt | [Heq | Hgt]].
-  - (* F measured lower: its fuel is enough for x, and so is the larger one *)
-    assert (Hcut : (mdepth F < entry_fuel SC)%nat) by lia.
-    pose proof (fix_fuel_enough F mn x Hcut E) as Hv.
-    assert (P1 : (2 * S (mdepth F) <= fix_fuel F)%nat) by (unfold fix_fuel; lia).
-    assert (P2 : (2 * S (mdepth F) <= fix_fuel F')%nat) by (unfold fix_fuel; lia).
-    rewrite (fix_choice_fuel_veq (S (mdepth F)) x (fix_fuel F) (fix_fuel F') Hv P1 P2 q).
+  destruct (Nat.lt_trichotomy (mheight F) (mheight F')) as [Hlt | [Heq | Hgt]].
+  - (* F is lower: its fuel is enough for x, and so is the larger one *)
+    pose proof (fix_fuel_enough F mn x E) as Hv.
+    assert (P1 : (2 * S (mheight F) <= fix_fuel F)%nat) by (unfold fix_fuel; lia).
+    assert (P2 : (2 * S (mheight F) <= fix_fuel F')%nat) by (unfold fix_fuel; lia).
+    rewrite (fix_choice_fuel_veq (S (mheight F)) x (fix_fuel F) (fix_fuel F') Hv P1 P2 q).
     apply (fix_choice_veq (fix_fuel F') x x' Ht q).
   - unfold fix_fuel. rewrite Heq. apply (fix_choice_veq _ x x' Ht q).
-  - assert (Hcut : (mdepth F' < entry_fuel SC)%nat) by lia.
-    pose proof (fix_fuel_enough F' mn x' Hcut E') as Hv.
-    assert (P1 : (2 * S (mdepth F') <= fix_fuel F)%nat) by (unfold fix_fuel; lia).
-    assert (P2 : (2 * S (mdepth F') <= fix_fuel F')%nat) by (unfold fix_fuel; lia).
-    rewrite <- (fix_choice_fuel_veq (S (mdepth F')) x' (fix_fuel F) (fix_fuel F') Hv P1 P2 q).
+  - pose proof (fix_fuel_enough F' mn x' E') as Hv.
+    assert (P1 : (2 * S (mheight F') <= fix_fuel F)%nat) by (unfold fix_fuel; lia).
+    assert (P2 : (2 * S (mheight F') <= fix_fuel F')%nat) by (unfold fix_fuel; lia).
+    rewrite <- (fix_choice_fuel_veq (S (mheight F')) x' (fix_fuel F) (fix_fuel F') Hv P1 P2 q).
     apply (fix_choice_veq (fix_fuel F) x x' Ht q).
 Qed.
 
 (* FixChoice twice is FixChoice once (for the view) *)
-Theorem fix_all_idem : forall X, forest_eqv (fix_all SC (fix_all SC X)) (fix_all SC X).
+Theorem fix_all_idem : forall X, forest_eqv (fix_all (fix_all X)) (fix_all X).
 Proof.
   intros X [mn q]. unfold flat_of. cbn [fst snd]. rewrite !lookup_fix_all.
   destruct (lookup mn X) as [x |] eqn:E; [| reflexivity]. cbn [option_map].
-  set (Y := fix_all SC X). set (NX := fix_fuel X). set (NY := fix_fuel Y).
+  set (Y := fix_all X). set (NX := fix_fuel X). set (NY := fix_fuel Y).
   set (y := fix_choice NX x).
-  assert (Ey : lookup mn Y = Some y) by (unfold Y; rewrite lookup_fix_all, E; reflexivity).
   change (option_map lab (vlocate (fix_choice NY y) q) = option_map lab (vlocate y q)).
-  pose proof (mdepth_le X) as LX. pose proof (mdepth_le Y) as LY.
-  destruct (Nat.eq_dec (mdepth X) (entry_fuel SC)) as [HX | HX].
-  - destruct (Nat.eq_dec (mdepth Y) (entry_fuel SC)) as [HY | HY].
-    + (* the same fuel *)
-      assert (NY = NX) by (unfold NY, NX, fix_fuel; rewrite HX, HY; reflexivity).
-      rewrite H. unfold y. rewrite fix_choice_absorb by lia. reflexivity.
-    + (* Y measured below the cut-off: both fuels are enough for y *)
-      assert (Hcut : (mdepth Y < entry_fuel SC)%nat) by lia.
-      pose proof (fix_fuel_enough Y mn y Hcut Ey) as Hv.
-      assert (P1 : (2 * S (mdepth Y) <= NY)%nat) by (unfold NY, fix_fuel; lia).
-      assert (P2 : (2 * S (mdepth Y) <= NX)%nat) by (unfold NX, fix_fuel; lia).
-      rewrite (fix_choice_fuel_veq (S (mdepth Y)) y NY NX Hv P1 P2 q).
-      unfold y. rewrite fix_choice_absorb by lia. reflexivity.
-  - (* X measured below the cut-off: its fuel was enough for x *)
-    assert (Hcut : (mdepth X < entry_fuel SC)%nat) by lia.
-    pose proof (fix_fuel_enough X mn x Hcut E) as Hv.
-    set (K := Nat.max NX NY).
-    assert (P1 : (2 * S (mdepth X) <= NX)%nat) by (unfold NX, fix_fuel; lia).
-    assert (P2 : (2 * S (mdepth X) <= K)%nat) by (unfold K; lia).
-    assert (Hyk : veq y (fix_choice K x)) by (apply (fix_choice_fuel_veq (S (mdepth X)) x NX K Hv P1 P2)).
-    rewrite (fix_choice_veq NY y (fix_choice K x) Hyk q).
-    rewrite fix_choice_absorb by (unfold K; lia).
-    symmetry. apply Hyk.
+  (* the fuel of the first pass was enough for x, so any larger fuel gives the same view *)
+  pose proof (fix_fuel_enough X mn x E) as Hv.
+  set (K := Nat.max NX NY).
+  assert (P1 : (2 * S (mheight X) <= NX)%nat) by (unfold NX, fix_fuel; lia).
+  assert (P2 : (2 * S (mheight X) <= K)%nat) by (unfold K; lia).
+  assert (Hyk : veq y (fix_choice K x)) by (apply (fix_choice_fuel_veq (S (mheight X)) x NX K Hv P1 P2)).
+  rewrite (fix_choice_veq NY y (fix_choice K x) Hyk q).
+  rewrite fix_choice_absorb by (unfold K; lia).
+  symmetry. apply Hyk.
 Qed.
 
 End FixAll.
@@ -3155,7 +3107,7 @@ Lemma rounds_final : forall fuel round F err P mods F2 err2 P2 mods2,
   rounds SC fuel round F err P mods = (F2, err2, P2, mods2) ->
   NoDup (map fst P) -> covers P mods -> (length (all_pending P) <= n_aug SC)%nat ->
   (length (all_pending P) + (match round with O => 1 | _ => 0 end) < fuel)%nat ->
-  (round <> O -> forest_eqv (fix_all SC F) F) ->
+  (round <> O -> forest_eqv (fix_all F) F) ->
   vmaximal SC (flat_of F2) (all_pending P2).
 Proof.
   induction fuel as [| f IH]; intros round F err P mods F2 err2 P2 mods2 H Hnd Hcov Hlen Hfuel Hfix; [lia |].
@@ -3165,7 +3117,7 @@ Proof.
     [lia | exact Hnd | exact Hcov |].
   pose proof (vrun_n_length SC _ _ _ _ _ _ _ (R false)) as Ll.
   assert (Hnda : NoDup (map fst Pa)) by (rewrite K; exact Hnd).
-  assert (Hrec : rounds SC f (S round) (fix_all SC Fa) ea Pa ma = (F2, err2, P2, mods2) ->
+  assert (Hrec : rounds SC f (S round) (fix_all Fa) ea Pa ma = (F2, err2, P2, mods2) ->
                  (length (all_pending Pa) < f)%nat -> vmaximal SC (flat_of F2) (all_pending P2)).
   { intros Hr Hm. apply (IH _ _ _ _ _ _ _ _ _ Hr Hnda C); [lia | simpl; lia |].
     intros _. apply fix_all_idem. }
@@ -3173,20 +3125,20 @@ Proof.
   - inversion H; subst. rewrite (covers_nil P2 Hnda C). intros a [].
   - rewrite <- Em in *. clear Em m0 ms.
     destruct round as [| r].
-    + assert (H' : rounds SC f 1 (fix_all SC Fa) ea Pa ma = (F2, err2, P2, mods2)).
+    + assert (H' : rounds SC f 1 (fix_all Fa) ea Pa ma = (F2, err2, P2, mods2)).
       { destruct ma; [| exact H]. destruct na; exact H. }
       apply Hrec; [exact H' | simpl in Hfuel; lia].
     + destruct na as [| na'].
-      * assert (H' : (fix_all SC Fa, ea, Pa, ma) = (F2, err2, P2, mods2)) by (destruct ma; exact H).
+      * assert (H' : (fix_all Fa, ea, Pa, ma) = (F2, err2, P2, mods2)) by (destruct ma; exact H).
         inversion H'; subst. assert (n = O) by lia. subst n.
         destruct (vrun_n_zero SC _ _ _ _ _ _ (R false)) as [He [Hp _]].
         (* nothing was applied: Fa has the view of F, which FixChoice leaves alone *)
-        assert (E1 : forest_eqv (fix_all SC Fa) (fix_all SC F)).
+        assert (E1 : forest_eqv (fix_all Fa) (fix_all F)).
         { apply fix_all_respects_eqv. apply feq_sym. exact He. }
-        assert (E2 : feq (flat_of Fa) (flat_of (fix_all SC Fa))).
+        assert (E2 : feq (flat_of Fa) (flat_of (fix_all Fa))).
         { apply feq_sym. eapply feq_trans; [exact E1 |]. eapply feq_trans; [apply Hfix; discriminate | exact He]. }
         apply (vmaximal_eqv _ _ _ _ E2 (Permutation_refl _) M).
-      * assert (H' : rounds SC f (S (S r)) (fix_all SC Fa) ea Pa ma = (F2, err2, P2, mods2)) by (destruct ma; exact H).
+      * assert (H' : rounds SC f (S (S r)) (fix_all Fa) ea Pa ma = (F2, err2, P2, mods2)) by (destruct ma; exact H).
         apply Hrec; [exact H' | simpl in Hfuel; lia].
 Qed.
 
@@ -3292,7 +3244,7 @@ Theorem rounds_order_independent :
   rounds SC fuel round F false P o1 = (F2, false, P2, m2) ->
   rounds SC fuel round F' false P' o2 = (F2', e2', P2', m2') ->
   e2' = false /\ forest_eqv F2 F2' /\ Permutation (all_pending P2) (all_pending P2').
-Proof. exact (rounds_confluent SC (fix_all_respects_eqv SC)). Qed.
+Proof. exact (rounds_confluent SC fix_all_respects_eqv). Qed.
 
 Lemma Process_ok_sources : forall order F, Process SC ic ins order = ROk F -> sources_ok SC ic = true.
 Proof.
